@@ -143,3 +143,23 @@ def _run_contract(rounds):
 
 for _r in (1, 2):
     _run_contract(_r)
+
+
+# ------------------------------------------------------------------ the mode predicates the hand-over relies on
+#  send_message_from_queue asks is_write_mode() to learn whether the transport still holds a stream that was handed
+#  over (hand-over always registers READ|WRITE): the predicates are BIT tests on the registered mask.
+def _mode_contract(fname, bit):
+    @contract("bromelia.transport.TcpConnection." + fname, prop="C05", name="_", also=("C07",))
+    class _M:
+        args = {"self": T.Obj(TR.TcpClient, idict={"events_mask": T.OneOf(T.Const(0), T.Const(1), T.Const(2), T.Const(3))})}
+
+        def ensures_bit_test(self, result):
+            return result == (self.events_mask & bit != 0)
+
+        def exceptional(exc):
+            return False
+    return _M
+
+
+_mode_contract("is_write_mode", 2)
+_mode_contract("is_read_mode", 1)
